@@ -1,7 +1,7 @@
 (* Model.GeomRun: case type and executable checkers for Run/cases_C18.v (no proofs).
    model_ok  : the implementation's output equals the model's on the same input;
    spec_class: the property itself, decided on the implementation's output alone. *)
-From DV Require Import Base.Prelude Base.Int Base.WrapZ Gen.Consts Model.Geometry Model.RLE Model.ROI.
+From DV Require Import Base.Prelude Base.Int Base.WrapZ Gen.Consts Model.Geometry Model.RLE Model.ROI Model.RLE2 Model.IZYX Model.ROIPart.
 Local Open Scope Z_scope.
 
 Definition zb (b : bytes) : list Z := map Z.of_N b.
@@ -109,7 +109,50 @@ Inductive c18case :=
 (* a set of n items stored / streamed at a size next to an internal batch or preallocation size
    [bound] (read from the Go source): how many came back, the first one that did not (its
    ordinal), and whether the membership probes on the first and last items answered true *)
-| KBoundary (what : nat) (n bound got : Z) (first_missing : option Z) (probes : bool).
+| KBoundary (what : nat) (n bound got : Z) (first_missing : option Z) (probes : bool)
+(* round 4: RLEs.Within (indices sorted by the driver), Offset, Stats *)
+| KWithin (l : list rle) (pts : list pt) (idx : list Z)
+| KOffset (l : list rle) (d : pt) (out : list rle)
+| KStats (l : list rle) (nvox nruns : Z)
+(* IZYXSlice operations on decoded keys; op: 0 Merge, 1 MergeCopy, 2 Delete, 3 Split *)
+| KIzyx (op : nat) (a b out : list pt)
+| KIFit (l : list pt) (b : option obounds) (out : list pt)
+| KIDown (l : list pt) (scale : Z) (out : list pt)
+| KIBounds (l : list pt) (mn mx : pt)
+(* GET <roi>/partition?batchsize=bsz (SimplePartition) of an instance holding [spans] (as GET roi
+   returned them): the reported subvolumes, NumSubvolumes, NumActiveBlocks *)
+| KRoiPart (bsz : Z) (spans : list span) (vs : list subvol) (nsub nactive : Z).
+
+Definition pts_eqb (a b : list pt) : bool := list_eqb pt_eqb a b.
+Definition memb (p : pt) (l : list pt) : bool := existsb (pt_eqb p) l.
+Definition izyx_model (op : nat) (a b : list pt) : list pt :=
+  match op with
+  | 0%nat => imerge a b
+  | 1%nat => merge_copy a b
+  | 2%nat => idelete a b
+  | _ => isplit a b
+  end.
+(* set-level oracles, written without the models *)
+Definition within_expected (l : list rle) (pts : list pt) : list Z :=
+  map (fun ip => Z.of_nat (fst ip)) (filter (fun ip => inrs (snd ip) l) (combine (seq 0 (length pts)) pts)).
+Definition set_op_ok (op : nat) (a b out : list pt) : bool :=
+  ssorted out
+  && forallb (fun p => Bool.eqb (memb p out)
+                         (match op with
+                          | 0%nat | 1%nat => memb p a || memb p b
+                          | _ => memb p a && negb (memb p b)
+                          end)) (a ++ b ++ out).
+Definition min_list (d : Z) (l : list Z) : Z := fold_right Z.min d l.
+Definition max_list (d : Z) (l : list Z) : Z := fold_right Z.max d l.
+Definition bbox_ok (l : list pt) (mn mx : pt) : bool :=
+  match l with
+  | [] => pt_eqb mn (0, 0, 0) && pt_eqb mx (0, 0, 0)
+  | p :: _ =>
+    pt_eqb mn (min_list (px p) (map px l), min_list (py p) (map py l), min_list (pz p) (map pz l))
+    && pt_eqb mx (max_list (px p) (map px l), max_list (py p) (map py l), max_list (pz p) (map pz l))
+  end.
+Definition coords_from (lo : Z) (p : pt) : bool :=
+  pt_is32b p && (lo <=? px p) && (lo <=? py p) && (lo <=? pz p).
 
 Definition bmap_eqb (m : bmap) (go : list (pt * list rle)) : bool :=
   Nat.eqb (length m) (length go)
@@ -165,6 +208,16 @@ Definition model_ok (c : c18case) : bool :=
   | KMask bs offset size spans mask => mask_model_ok bs offset size spans mask
   | KVbi vmin vmax bs spans ans => res_eqb Bool.eqb (voxel_bounds_inside vmin vmax bs spans) ans
   | KBoundary _ n _ got fm probes => true
+  | KWithin l pts idx => zlist_eqb (map Z.of_nat (within l pts)) idx
+  | KOffset l d out => rles_eqb (offset l d) out
+  | KStats l nv nr => (fst (stats l) =? nv) && (snd (stats l) =? nr)
+  | KIzyx op a b out => pts_eqb (izyx_model op a b) out
+  | KIFit l b out => pts_eqb (ifit l b) out
+  | KIDown l s out => pts_eqb (downres l s) out
+  | KIBounds l mn mx =>
+    (pt_eqb (fst (get_bounds l)) mn && pt_eqb (snd (get_bounds l)) mx)
+    || (pt_eqb (fst (get_bounds_fixed l)) mn && pt_eqb (snd (get_bounds_fixed l)) mx)
+  | KRoiPart _ _ _ _ _ => true
   end.
 
 (* the number of voxels Add really adds: counted voxel by voxel *)
@@ -298,6 +351,41 @@ Definition spec_class (c : c18case) : nat :=
     else 0%nat
   | KBoundary _ n bound got fm probes =>
     if (got =? n) && (match fm with None => true | Some _ => false end) && probes then 0%nat else 19%nat
+  | KWithin l pts idx =>
+    if forallb run_okb l then cls (zlist_eqb idx (within_expected l pts)) 20%nat else 0%nat
+  | KOffset l d out =>
+    if forallb run_okb l && pt_safeb d then
+      cls (zlist_eqb (map rlen out) (map rlen l)
+           && agree_on (probes out ++ map (fun p => (px p - px d, py p - py d, pz p - pz d)) (probes l))
+                       (fun p => inrs p out) (fun p => inrs (padd3 p d) l)) 21%nat
+    else 0%nat
+  | KStats l nv nr =>
+    if forallb run_okb l && disjointb l && (num_voxels l <=? 100000)
+    then cls ((nv =? add_expected [] l) && (nr =? Z.of_nat (length l))) 22%nat else 0%nat
+  | KIzyx op a b out =>
+    if ssorted a && ssorted b && forallb pt_is32b (a ++ b)
+    then cls (set_op_ok op a b out) (match op with 0%nat | 1%nat => 23%nat | _ => 24%nat end) else 0%nat
+  | KIFit l b out =>
+    if ssorted l && forallb pt_is32b l
+    then cls (ssorted out && forallb (fun p => Bool.eqb (memb p out) (memb p l && inside_opt b p)) (l ++ out)) 25%nat
+    else 0%nat
+  | KIDown l s out =>
+    if forallb pt_is32b l && (0 <=? s) then
+      cls (((s =? 0) || ssorted out)
+           && forallb (fun p => memb (px p / 2 ^ s, py p / 2 ^ s, pz p / 2 ^ s) out) l
+           && forallb (fun q => existsb (fun p => pt_eqb q (px p / 2 ^ s, py p / 2 ^ s, pz p / 2 ^ s)) l) out) 26%nat
+    else 0%nat
+  | KIBounds l mn mx =>
+    if forallb (coords_from (-2147483646)) l then cls (bbox_ok l mn mx) 27%nat else 0%nat
+  | KRoiPart bsz spans vs nsub nactive =>
+    if forallb span_okb spans && spans_sortedb spans && spans_disjointb spans && (1 <=? bsz) then
+      if boxes_disjointb vs && tiles_ok spans vs && counts_ok spans vs
+         && forallb (fun v => (px (vmax v) - px (vmin v) + 1 =? bsz) && (py (vmax v) - py (vmin v) + 1 =? bsz)
+                              && (pz (vmax v) - pz (vmin v) + 1 =? bsz)) vs
+         && (nsub =? Z.of_nat (length vs)) && (nactive =? Z.of_nat (length (roi_blocks spans)))
+      then 0%nat
+      else if has_z_gap bsz spans then 29%nat else 28%nat
+    else 0%nat
   end.
 
 Fixpoint classify_from (i : nat) (l : list c18case) : list (nat * nat) :=
@@ -312,6 +400,8 @@ Definition c18_model_mismatch (l : list c18case) : list nat := find_idx (fun c =
 (* compact constructors for the generated cases file *)
 Definition rl (l : list (Z * Z * Z * Z)) : list rle :=
   map (fun q => match q with (x, y, z, n) => R x y z n end) l.
+Definition svl (l : list (pt * pt * Z * Z)) : list subvol :=
+  map (fun q => match q with (mn, mx, t, a) => SV mn mx t a end) l.
 Definition spl (l : list (Z * Z * Z * Z)) : list span :=
   map (fun q => match q with (z, y, x0, x1) => SP z y x0 x1 end) l.
 (* a string of '0'/'1' characters as a list of booleans *)
